@@ -316,6 +316,20 @@ def mutate(rnd, tree, donor_tree, touched):
     return None
 
 
+def raw_string_marked_u(out):
+    """a Constant of the result tree with kind == 'u' whose literal in the result source carries an r/R prefix"""
+    import re
+    try:
+        for n in ast.walk(out.a):
+            if isinstance(n, ast.Constant) and n.kind == 'u' and isinstance(n.value, str):
+                seg = ast.get_source_segment(out.src, n) or ''
+                if re.match(r'[a-zA-Z]*[rR][a-zA-Z]*[\'"]', seg):
+                    return True
+    except Exception:
+        pass
+    return False
+
+
 def has_cycle(tree, limit=200000):
     """shared sub-trees are allowed (DAG); a cycle is not a tree any more"""
     seen_path = set()
@@ -391,6 +405,10 @@ def run_round(ctx, FST, rnd, root, donor_root, label, round_no, hseed=None):
         edited_src = ast.unparse(root.a)
         want = ast.parse(edited_src)
         valid = sdump(want) == sdump(ast.parse(ast.unparse(want)))
+        if valid and sdump(want) != sdump(root.a):
+            # the unparsed text of the edited AST denotes a DIFFERENT tree (e.g. BinOp '|' inside a pattern value reads back as MatchOr): the edited AST is not expressible as Python source
+            ctx.count('edited_ast_not_expressible_as_source(out of scope)')
+            return None
     except Exception:
         ctx.count('edited_ast_not_valid_python(out of scope)')
         return None
@@ -418,6 +436,9 @@ def run_round(ctx, FST, rnd, root, donor_root, label, round_no, hseed=None):
     ok, detail = insync(out)
     if ok is False and (touched & foreign):
         ctx.violation('mutation-inside-node-of-another-fst-tree-ignored', f'round {round_no} kinds={kinds}: a node taken from another FST tree was itself modified as pure AST before reconcile(); the result keeps the foreign source but the modified AST (out of sync: {detail}); out.src={short(out.src, 200)!r}', case)
+        return None
+    if ok is False and 'const_kind' in kinds and raw_string_marked_u(out):
+        ctx.violation('constant-kind-u-on-raw-string-keeps-raw-spelling', f'round {round_no} kinds={kinds}: Constant.kind was set to "u" on a string written as a raw literal; reconcile() keeps the r-prefixed spelling (which cannot carry a u prefix), so the tree says kind="u" and the source says kind=None; out.src={short(out.src, 200)!r}', case)
         return None
     if ok is False:
         ctx.violation(f'reconcile-result-desync:{detail}', f'round {round_no} kinds={kinds}: result source and tree out of sync ({detail}); out.src={short(out.src, 300)!r}', case)
